@@ -15,7 +15,7 @@ RULE = ('cases: nested lists/dicts (depth <= 3) holding 1-5 float Series / DataF
         'of lengths 0-6 (full shape and every cell observed) for ij/oj/lj/rj x method, a stream of lj/rj joins over >= 3 series whose last/first index repeats another one, and a small malformed stream mixing arrays with Series (ValueError). '
         'Observed: container structure, index, columns, every cell, is-identity of pass-through members; compared in Coq '
         'with the model M_align evaluated by vm_compute; the oracle recomputes index / cells / columns from the property text '
-        'with Python sets and linear scans. Every stream is further varied in kind: tick length 1 us .. 1 day and origins 1900 / 2020 / 2250, policy / method / column spellings (inner, Outer, pad, backfill, ..), multi-letter and integer column names and dict keys, int-dtype operands, +-inf cells, 120-250-row series, presync via keywords / .oj.ffill attributes / join=<parameter name>, recording functions with signatures (a, *args), (a, b=None, *args, **kw), (*args) receiving 2-4 timeseries, direct df_columns, timezone-aware indices (UTC / Europe/London / US/Eastern / Asia/Tokyo, all members in one zone; the model sees instants) in 25% of the cases, dict keys named index / columns / data / values (dedicated stream + renaming). Every sync / reindex / presync call is made TWICE on the same objects (identical result required), half the sync / reindex cases (all array cases) align the same objects again with the other fill methods (oracle-checked), and a deep snapshot of every operand (cells, index, dtype, name, array contents) must be unchanged afterwards. non-trivial = at least two timeseries with different, overlapping indices (or two '
+        'with Python sets and linear scans. Every stream is further varied in kind: tick length 1 us .. 1 day and origins 1900 / 2020 / 2250, policy / method / column spellings (inner, Outer, pad, backfill, ..), multi-letter and integer column names and dict keys, int-dtype operands, +-inf cells, 120-250-row series, presync via keywords / .oj.ffill attributes / join=<parameter name>, recording functions with signatures (a, *args), (a, b=None, *args, **kw), (*args) receiving 2-4 timeseries, direct df_columns, timezone-aware indices (UTC / Europe/London / US/Eastern / Asia/Tokyo, all members in one zone; the model sees instants) in 25% of the cases, dict keys named index / columns / data / values (dedicated stream + renaming), members and explicit indexes (given as pd.Index, timeseries or dict) whose index is OBJECT-dtype holding datetimes / Timestamps (is_ts goes by the labels). Every sync / reindex / presync call is made TWICE on the same objects (identical result required), half the sync / reindex cases (all array cases) align the same objects again with the other fill methods (oracle-checked), and a deep snapshot of every operand (cells, index, dtype, name, array contents) must be unchanged afterwards. non-trivial = at least two timeseries with different, overlapping indices (or two '
         'arrays of different lengths); distinct by full input')
 EXPLANATION = ('theorems C03_* (coq/props/C03.v) hold for every nested collection, every index and every policy: common index '
                '(intersection / union / first / last / explicit), values intact, missing = NaN, ffill/bfill = as-of join on '
@@ -116,8 +116,11 @@ def impl_setup():
     import pandas as pd, numpy as np
     from pyg_base._pandas import df_sync, df_index, df_reindex, presync, df_columns
 
-def mkidx(days):
-    i = pd.DatetimeIndex([_AX['d0'] + datetime.timedelta(microseconds=d * _AX['unit']) for d in days])
+def mkidx(days, obj=False):
+    stamps = [_AX['d0'] + datetime.timedelta(microseconds=d * _AX['unit']) for d in days]
+    if obj and not _AX['tz']:            # an OBJECT-dtype index holding datetimes: still a timeseries (is_ts looks at the labels)
+        return pd.Index([pd.Timestamp(t) if (k % 2) else t for k, t in enumerate(stamps)], dtype=object)
+    i = pd.DatetimeIndex(stamps)
     return i.tz_localize('UTC').tz_convert(_AX['tz']) if _AX['tz'] else i
 def fl(v): return float('nan') if v is None else float('inf') if v == INF else float('-inf') if v == -INF else float(v)
 def all_int(vals): return all(v is not None and abs(v) < INF for v in vals)
@@ -135,13 +138,13 @@ def build(tr, reg):
     if 'S' in tr:
         vals = [v for _, v in tr['S']]
         if tr.get('dt') == 'int' and all_int(vals):
-            return pd.Series([int(v) for v in vals], mkidx([t for t, _ in tr['S']]), dtype=int)
-        return pd.Series([fl(v) for v in vals], mkidx([t for t, _ in tr['S']]), dtype=float)
+            return pd.Series([int(v) for v in vals], mkidx([t for t, _ in tr['S']], tr.get('oi')), dtype=int)
+        return pd.Series([fl(v) for v in vals], mkidx([t for t, _ in tr['S']], tr.get('oi')), dtype=float)
     if 'F' in tr:
         f = tr['F']
         isint = tr.get('dt') == 'int' and all_int([v for r in f['rows'] for v in r])
         data = np.array([[(int(v) if isint else fl(v)) for v in r] for r in f['rows']], dtype=int if isint else float).reshape(len(f['idx']), len(f['cols']))
-        return pd.DataFrame(data, mkidx(f['idx']), list(f['cols']))
+        return pd.DataFrame(data, mkidx(f['idx'], tr.get('oi')), list(f['cols']))
     if 'A' in tr:
         return np.array([fl(v) for v in tr['A']], dtype=float)
     if 'A2' in tr:
@@ -174,7 +177,7 @@ def cdays(index):
     for t in index:
         if aware:
             t = t.tz_convert('UTC').tz_localize(None)
-        us = (t.to_pydatetime() - _AX['d0']) // datetime.timedelta(microseconds=1)
+        us = ((t.to_pydatetime() if hasattr(t, 'to_pydatetime') else t) - _AX['d0']) // datetime.timedelta(microseconds=1)
         out.append(us // _AX['unit'] if us % _AX['unit'] == 0 else 'us:%d' % us)
     return out
 
@@ -186,7 +189,7 @@ def canon(o, reg, cell=ccell):
         return ['T', [canon(x, reg, cell) for x in o]]
     if isinstance(o, dict):
         return ['D', [[keycode(k) if known_name(k) else str(k), canon(x, reg, cell)] for k, x in o.items()]]
-    if isinstance(o, (pd.Series, pd.DataFrame)) and len(o.index) and not isinstance(o.index, pd.DatetimeIndex):
+    if isinstance(o, (pd.Series, pd.DataFrame)) and len(o.index) and not isinstance(o.index, pd.DatetimeIndex) and not all(isinstance(x, datetime.datetime) for x in o.index):
         return ['S?' if isinstance(o, pd.Series) else 'F?', [str(x) for x in o.index][:8]]
     if isinstance(o, pd.Series):
         return ['S', cdays(o.index), [cell(v) for v in o.values]]
@@ -233,7 +236,7 @@ def jcanon(tr):
 
 def py_how(h):
     if isinstance(h, dict):
-        i = mkidx(h['x'])
+        i = mkidx(h['x'], h.get('oi'))
         a = h.get('as', 'idx')
         return i if a == 'idx' else pd.Series(0.0, i) if a == 'ts' else dict(index=i)
     return h
@@ -543,7 +546,7 @@ def run_case(case):
                           ['C', sorted(colcode(c) for c in r)] if all(known_name(c) for c in r) else ['C?', [str(c) for c in r]])
         if k == 'index':
             r = df_index(obj, H())
-            return 'ok', (None if r is None else ['n', int(r)] if isinstance(r, (int, np.integer)) else ['I', cdays(r)] if isinstance(r, pd.Index) else ['not-an-index', type(r).__name__])
+            return 'ok', (None if r is None else ['n', int(r)] if isinstance(r, (int, np.integer)) else ['I', cdays(r)] if (isinstance(r, pd.Index) and (isinstance(r, pd.DatetimeIndex) or all(isinstance(x, datetime.datetime) for x in r))) else ['not-an-index', type(r).__name__])
         before = snap(obj)
         def call(m, same):
             mm = M() if same else m
@@ -788,6 +791,14 @@ def gen_cases(rng, tier):
             for m in METHODS:
                 cases.append({'kind': 'presync', 'args': kids, 'how': how, 'method': m, 'columns': rng.choice(['ij', 'oj', None]),
                               'default': rng.choice([None, 0]), 'sig': sig, 'nvar': nvar})
+    for _ in range(40 if q else 500):                        # the explicit index given as a TIMESERIES / dict whose own index is object-dtype datetimes
+        tr = rand_collection(rng, max_ts=3)
+        for l in leaves(tr):
+            if is_pdj(l) and rng.random() < 0.5:
+                l['oi'] = True
+        for m in METHODS:
+            ex = dict(rand_explicit(rng), oi=True); ex['as'] = rng.choice(['ts', 'ts', 'dict', 'idx'])
+            cases.append({'kind': rng.choice(['reindex', 'reindex', 'sync', 'index']), 'tree': tr, 'how': ex, 'method': m, 'columns': 'ij'})
     for _ in range(40 if q else 500):                        # dicts whose keys are called 'index' / 'values' / 'data' / 'columns' (dict(index=spx, stock=aapl))
         n = rng.choice([2, 3, 3, 4])
         items = [rand_ts(rng, idx, 0.2) for idx in index_family(rng, n)]
@@ -887,6 +898,13 @@ def decorate(rng, case):
         c['colfalse'] = True                     # columns=False is the other spelling of 'leave the columns alone'
     if rng.random() < 0.25:                      # timezone-aware indices, every member in the same zone
         c['tz'] = rng.choice(['UTC', 'Europe/London', 'US/Eastern', 'Asia/Tokyo'])
+    elif rng.random() < 0.25:                    # members / explicit index carrying an OBJECT-dtype index of datetimes
+        c = json.loads(json.dumps(c))
+        for l in case_leaves(c):
+            if is_pdj(l) and rng.random() < 0.6:
+                l['oi'] = True
+        if isinstance(c['how'], dict) and rng.random() < 0.7:
+            c['how']['oi'] = True
     if c['kind'] in ('sync', 'reindex'):         # the same objects aligned again with another fill method
         others = [m for m in METHODS if m != c.get('method')]
         arrays = any(is_arrj(l) for l in case_leaves(c))
